@@ -2,7 +2,7 @@
 (***************************************************************************)
 (* code -> spec for C12.  A trace is one SCHEDULE that was forced on the   *)
 (* real executor for scenario IOEnv.VERIF_SCN: a sequence of               *)
-(*    step | poll | deliver(s) | retry | finish | recover                  *)
+(*    step | poll | deliver(s) | retry | finish | recover | end            *)
 (* with the projected real state logged after each action.  Every event    *)
 (* must be the corresponding Epr action AND lead to the logged state; the  *)
 (* Epr invariants are evaluated in every state of every trace.             *)
@@ -45,6 +45,7 @@ Diff(a, b) ==
 TInit == Init /\ id \in DOMAIN Traces /\ k = 0 /\ verdict = "running"
 Act(ev) == CASE ev.a = "step"    -> Step
              [] ev.a = "poll"    -> Poll
+             [] ev.a = "end"     -> (m.status \in {"done", "fault", "unspec"} \/ herr) /\ UNCHANGED vars   \* nothing more can happen
              [] ev.a = "finish"  -> Finish
              [] ev.a = "recover" -> Recover
              [] ev.a = "retry"   -> RunHandler(pending) /\ UNCHANGED <<net, nreq, seqc, sub>>
